@@ -7,3 +7,9 @@ theories/Pipe/Base.vos theories/Pipe/Base.vok theories/Pipe/Base.required_vos: t
 theories/Pipe/Data.vo theories/Pipe/Data.glob theories/Pipe/Data.v.beautified theories/Pipe/Data.required_vo: theories/Pipe/Data.v theories/Pipe/Model.vo theories/Pipe/Base.vo
 theories/Pipe/Data.vio: theories/Pipe/Data.v theories/Pipe/Model.vio theories/Pipe/Base.vio
 theories/Pipe/Data.vos theories/Pipe/Data.vok theories/Pipe/Data.required_vos: theories/Pipe/Data.v theories/Pipe/Model.vos theories/Pipe/Base.vos
+theories/Pipe/Notify.vo theories/Pipe/Notify.glob theories/Pipe/Notify.v.beautified theories/Pipe/Notify.required_vo: theories/Pipe/Notify.v theories/Pipe/Model.vo theories/Pipe/Base.vo
+theories/Pipe/Notify.vio: theories/Pipe/Notify.v theories/Pipe/Model.vio theories/Pipe/Base.vio
+theories/Pipe/Notify.vos theories/Pipe/Notify.vok theories/Pipe/Notify.required_vos: theories/Pipe/Notify.v theories/Pipe/Model.vos theories/Pipe/Base.vos
+theories/Pipe/Token.vo theories/Pipe/Token.glob theories/Pipe/Token.v.beautified theories/Pipe/Token.required_vo: theories/Pipe/Token.v theories/Pipe/Model.vo theories/Pipe/Base.vo theories/Pipe/Notify.vo
+theories/Pipe/Token.vio: theories/Pipe/Token.v theories/Pipe/Model.vio theories/Pipe/Base.vio theories/Pipe/Notify.vio
+theories/Pipe/Token.vos theories/Pipe/Token.vok theories/Pipe/Token.required_vos: theories/Pipe/Token.v theories/Pipe/Model.vos theories/Pipe/Base.vos theories/Pipe/Notify.vos
